@@ -321,3 +321,34 @@ def main(pid, tier, seed):
         pid, tier, seed, c.get("spec_states"), c.get("trace_states"), c.get("traces_validated_against_impl"),
         evidence["violations"], evidence["wall_s"], exit_code))
     return exit_code
+
+
+
+def apalache(ctx, module, obligations, negatives=(), cinit="CInit", nxt="ANext", timeout=300):
+    """Discharge inductive obligations with Apalache (symbolic; histories of any length / symbolic constants).
+    obligations: [(name, [args])]; negatives: [(name, [args])] that must be REFUTED (a named wrong design).
+    Returns (record for the evidence, failures). A timeout is reported, anything else unexpected is a failure."""
+    import shutil
+    import subprocess
+    if shutil.which("apalache-mc") is None:
+        return {"ran": False, "why": "apalache-mc not on PATH"}, []
+    out_dir = os.path.join(ctx.work, "apalache_" + module.replace(".tla", ""))
+    res, fails = {"ran": True, "module": module, "obligations": []}, []
+    for name, args, want_ok in [(n, a, True) for n, a in obligations] + [(n, a, False) for n, a in negatives]:
+        cmd = ["apalache-mc", "check", "--next=" + nxt, "--out-dir=" + out_dir] + ([] if any(x.startswith("--cinit") for x in args) else ["--cinit=" + cinit]) + list(args) + [module]
+        try:
+            p = subprocess.run(cmd, cwd=tlc.TLA_DIR, stdout=subprocess.PIPE, stderr=subprocess.STDOUT, text=True, timeout=timeout)
+            ok = "EXITCODE: OK" in p.stdout
+            refuted = "EXITCODE: ERROR (12)" in p.stdout
+            if want_ok:
+                res["obligations"].append({"name": name, "discharged": ok})
+                if not ok:
+                    fails.append("apalache obligation %s of %s not discharged: %s" % (name, module, p.stdout[-300:]))
+            else:
+                res["obligations"].append({"name": name, "negative": True, "refuted": refuted})
+                if not refuted:
+                    fails.append("apalache: the wrong design %s of %s was not refuted: %s" % (name, module, p.stdout[-300:]))
+        except subprocess.TimeoutExpired:
+            res["obligations"].append({"name": name, "discharged": False, "timeout": True})
+    shutil.rmtree(out_dir, ignore_errors=True)
+    return res, fails
